@@ -31,7 +31,7 @@ let string_of_n (x : n) : string =
   if Buffer.length b = 0 then "0" else Buffer.contents b
 
 let strat_of_int = function
-  | 0 -> SSimple | 1 -> SBasic | 2 -> SAppend | 3 -> SAppendRev
+  | 0 -> SSimple | 1 -> SBasic | 2 -> SAppend | 3 -> SAppendRev | 4 -> SGAppend | 5 -> SGAppendRev
   | _ -> failwith "strategy"
 
 let parse_req (t : string) : req =
